@@ -133,5 +133,42 @@ class OpTableUnit:
         from units.c05_ops import OpsUnit
         return OpsUnit.witness(self, repo, o, res)
 
+    def cli_replay(self, repo, o, vals):
+        """the failing cell (left kind, right kind, operator) decoded from kani's bytes -> a two-operand program on the real CLI:
+        static `typeof` of the result against what the run-time operator does"""
+        from vlib import cli
+        if len(vals) < 7:
+            return {"replayed_on_real_cli": False, "why": "unexpected number of symbolic inputs"}
+        ka, kb, op = vals[0][0], vals[3][0], vals[6][0]
+        names = ["bool", "str", "int", "bigint", "float", "byte"]
+        sample = ["true", '"ab"', "6", "B6", "1.5", "0b11"]
+        syms = ["+", "-", "*", "/", "%", "<", ">", "<=", ">=", "==", "!=", "&&", "||", "^", "xor ", "|", "&", "<<", ">>"]
+        if ka > 5 or kb > 5 or op > 18:
+            return {"replayed_on_real_cli": False, "why": "counterexample outside the assumed cell range"}
+        def promote(l, r): return 4 if 4 in (l, r) else l if l == r else r if l == 5 else l if r == 5 else 3
+        num = lambda k: k >= 2
+        intk = lambda k: k in (2, 3, 5)
+        def rt(l, r, o):
+            if o == 0: return promote(l, r) if num(l) and num(r) else 1 if 1 in (l, r) else None
+            if o == 2: return promote(l, r) if num(l) and num(r) else 1 if (l == 1 and r in (2, 3)) or (r == 1 and l in (2, 3)) else None
+            if o in (1, 3, 4): return promote(l, r) if num(l) and num(r) else None
+            if o in (5, 6, 7, 8): return 0 if num(l) and num(r) else None
+            if o in (9, 10): return 0 if (num(l) and num(r)) or (l == r and l in (0, 1)) else None
+            if o in (11, 12, 13): return 0 if l == 0 and r == 0 else None
+            return promote(l, r) if intk(l) and intk(r) else None
+        want = rt(ka, kb, op)
+        prog = f"a = {sample[ka]}\nb = {sample[kb]}\nr = a {syms[op]} b\nprint typeof r\nprint r\n"
+        run = cli.run_program(repo, prog)
+        out = [l for l in run["stdout"].splitlines() if l.strip() and not l.startswith("Compiled in")]
+        compiled = "Compiled in" in run["stdout"]
+        if not compiled:
+            actual = "rejected by the compiler"; rep = want is not None
+        elif run["exit"] != 0:
+            actual = "accepted by the compiler, fails at run time"; rep = True
+        else:
+            actual = f"accepted, static type {out[0].strip() if out else '?'}"; rep = want is None or (out and not out[0].strip().startswith(names[want]))
+        return {"replayed_on_real_cli": True, "reproduced_on_real_cli": bool(rep), "cell": f"{names[ka]} {syms[op].strip()} {names[kb]}",
+                "expected_by_the_property": "rejected (the run-time operator cannot succeed)" if want is None else f"accepted with static type {names[want]}", "actual": actual, **run}
+
 
 UNITS = [OpTableUnit()]
